@@ -167,7 +167,7 @@ theorem resRes_put_msgs {sp : Spec} {f : Facts} {r : RunRes} {ms : List (Nat × 
     (h : resRes sp f r = .put ms rec pc) :
     ms = [] ∨ ∃ c b, sp.find? r.key = some c ∧ ms = c.msg b ∧
       f.spendOf r.key = some (if b then SpendKind.remote else SpendKind.ours) := by
-  obtain ⟨key, ⟨kind, incub, resolved⟩, rpc⟩ := r
+  obtain ⟨key, ⟨kind, incub, resolved⟩, rpc, handed⟩ := r
   unfold resRes at h
   simp only at h
   repeat' split at h
@@ -246,6 +246,7 @@ theorem resApply_msgsOk {sp : Spec} {s s' : Sys} {k : Nat} {r : RunRes} {rr : Re
   unfold resApply at hs
   split at hs
   · cases hs
+  · cases hs; exact h
   · cases hs; exact h
   · rename_i ms rec pc
     cases hs
@@ -655,7 +656,7 @@ theorem mainStep_inv {sp : Spec} {s s' : Sys} (h : Inv s) (hs : mainStep sp s = 
 theorem resRes_put_facts {sp : Spec} {f : Facts} {r : RunRes} {ms : List (Nat × Bool)} {rec : Rec} {pc : RPc}
     (h : resRes sp f r = .put ms rec pc) :
     rec.kind.persisted = r.rc.kind.persisted ∧ r.pc = .running := by
-  obtain ⟨key, ⟨kind, incub, resolved⟩, rpc⟩ := r
+  obtain ⟨key, ⟨kind, incub, resolved⟩, rpc, handed⟩ := r
   unfold resRes at h
   simp only at h
   repeat' split at h
@@ -689,6 +690,13 @@ theorem resApply_inv {s s' : Sys} {k : Nat} {r : RunRes} {rr : ResRes} (h : Inv 
     intro a ha hp hpc
     rcases mem_setActive ha with ⟨rfl, _⟩ | ⟨ha', _⟩
     · rcases hpc with hpc | hpc <;> simp at hpc
+    · exact h.act a ha' hp hpc
+  · -- incubate
+    cases hs
+    refine ⟨h.memEq, fun hp => absurd hp hnpre, ?_, h.done, h.closedPc, h.bc⟩
+    intro a ha hp hpc
+    rcases mem_setActive ha with ⟨rfl, _⟩ | ⟨ha', _⟩
+    · exact h.act r hr hp hpc
     · exact h.act a ha' hp hpc
   · -- put
     rename_i ms rec pc
@@ -911,6 +919,7 @@ theorem resApply_invCC {sp : Spec} {s s' : Sys} {k : Nat} {r : RunRes} {rr : Res
   split at hs
   · cases hs
   · cases hs; exact ⟨h.freshStored, h.noneResolved, h.wipePc⟩
+  · cases hs; exact ⟨h.freshStored, h.noneResolved, h.wipePc⟩
   · rename_i ms rec pc
     by_cases hp : rec.kind.persisted = true
     · simp only [hp, if_true] at hs
@@ -979,7 +988,7 @@ theorem key_inj {l : List Contract} (h : (l.map (·.key)).Nodup) {c c' : Contrac
 /-- a resolver's own checkpoints never decrease its progress. -/
 theorem resRes_put_progress {sp : Spec} {f : Facts} {r : RunRes} {ms : List (Nat × Bool)} {rec : Rec} {pc : RPc}
     (h : resRes sp f r = .put ms rec pc) : r.rc.progress ≤ rec.progress := by
-  obtain ⟨key, ⟨kind, incub, resolved⟩, rpc⟩ := r
+  obtain ⟨key, ⟨kind, incub, resolved⟩, rpc, handed⟩ := r
   unfold resRes at h
   simp only at h
   repeat' split at h
@@ -1347,6 +1356,7 @@ theorem resApply_invK {sp : Spec} {s s' : Sys} {k : Nat} {r : RunRes} {rr : ResR
   unfold resApply at hs
   split at hs
   · cases hs
+  · cases hs; exact ⟨h.k1, h.k2, h.k3, h.k4, h.k5, h.k6, h.k7, h.k8, h.k9, h.k10⟩
   · cases hs; exact ⟨h.k1, h.k2, h.k3, h.k4, h.k5, h.k6, h.k7, h.k8, h.k9, h.k10⟩
   · rename_i ms rec pc
     by_cases hp : rec.kind.persisted = true
